@@ -3,6 +3,7 @@
 //! several senders until (and past) sell-out on all six vending minters; the monitors
 //! evaluate the property text on the real contracts' answers; every minter step is
 //! also printed for the Coq model (corr/SaleCorr.v).
+use crate::oe_world::*;
 use crate::util::*;
 use crate::w_sale::*;
 use crate::Args;
@@ -323,7 +324,17 @@ fn corpus() -> Vec<Case> {
 pub fn run(a: &Args) {
     let out = OutDir::new(&a.out);
     let mut rep = Report { property: "C01".into(), tier: a.tier.clone(), seed: a.seed, ..Default::default() };
-    let cases: Vec<Case> = if let Some(p) = &a.replay {
+    // replay files of part 2 (open editions / base minter) carry "part": "oe"
+    let mut oe_replay: Option<OeCase> = None;
+    if let Some(p) = &a.replay {
+        let raw: serde_json::Value = serde_json::from_str(&std::fs::read_to_string(p).expect("replay file")).expect("replay json");
+        if raw.get("part").and_then(|x| x.as_str()) == Some("oe") {
+            oe_replay = Some(serde_json::from_value(raw["case"].clone()).expect("oe replay case"));
+        }
+    }
+    let cases: Vec<Case> = if oe_replay.is_some() {
+        vec![]
+    } else if let Some(p) = &a.replay {
         #[derive(Deserialize)]
         struct ReplayFile {
             case: Case,
@@ -376,6 +387,736 @@ pub fn run(a: &Args) {
     }
     rep.rule = "histories of Mint/MintTo/MintFor/Shuffle/Purge/BurnRemaining by buyers, stranger and admin on each of the six vending minters (num_tokens around the 50-position window and the sell-out), corpus first; evaluations = minter steps executed on the real contracts; distinct_nontrivial = steps that succeeded (state-changing) in distinct histories".into();
     out.write_cases("C01", "From LP Require Import Num Pay Sg1 Bank MinterVending SaleCorr.", "scase", "sale_check", &coq_cases, 6, &mut rep);
+    // ---- part 2: open-edition minters and the base minter ----
+    let (oe_n, oe_viol) = if a.replay.is_some() && oe_replay.is_none() { (0, 0) } else { run_oe_part(a, &out, &mut rep, oe_replay, nviol) };
     out.finish(&rep);
-    println!("C01 harness: {} cases, {} steps, {} monitor violations", cases.len(), rep.evaluations, nviol);
+    println!(
+        "C01 harness: {} vending cases + {} open-edition/base cases, {} steps, {} monitor violations",
+        cases.len(),
+        oe_n,
+        rep.evaluations,
+        nviol + oe_viol
+    );
+}
+
+// =====================================================================================
+// Part 2 — open-edition minters and the base minter: "token ids are issued as 1,2,3,...
+// with no gap or repeat, the total-mint count equals the number of mints that succeeded,
+// the supply never exceeds the configured token cap (or the factory-wide cap captured at
+// creation where the variant applies one), and nothing can be minted after a successful
+// burn-remaining."
+// =====================================================================================
+#[derive(Clone, Debug, Serialize, Deserialize)]
+pub enum OeCase {
+    Oe { cfg: OeCfg, ops: Vec<OeOp> },
+    Base { cfg: BaseCfg, ops: Vec<OeOp> },
+}
+
+fn is_oe_mint(op: &OeOp) -> bool {
+    matches!(op, OeOp::Mint { .. } | OeOp::MintM { .. } | OeOp::MintTo { .. } | OeOp::BaseMint { .. })
+}
+
+pub fn run_oe_case(c: &OeCase) -> CaseResult {
+    let mut res = CaseResult { coq: None, steps: 0, ok_steps: 0, violations: vec![], hist: BTreeMap::new() };
+    match c {
+        OeCase::Oe { cfg, ops } => {
+            let vname = OE_VARIANTS[cfg.variant].name;
+            let mut w = match OeWorld::new(cfg.clone()) {
+                Ok(w) => w,
+                Err(e) => {
+                    if std::env::var("OE_DEBUG").is_ok() {
+                        eprintln!("create failed: {} {:?}: {}", vname, cfg.wl, e);
+                    }
+                    *res.hist.entry(format!("{}:create:err", vname)).or_insert(0) += 1;
+                    return res;
+                }
+            };
+            let init = w.init_state_coq();
+            let init_bal = w.balances_coq();
+            let mut steps = vec![];
+            // ---- monitor state, from the property text and the documented configuration ----
+            // cap: the configured num_tokens, else the factory-wide max_token_limit as it was at
+            // creation for the variants that capture it (plain, merkle), else none (wl-flex)
+            let cap: Option<u64> = match cfg.num_tokens {
+                Some(n) => Some(n as u64),
+                None => {
+                    if OE_VARIANTS[cfg.variant].flex {
+                        None
+                    } else {
+                        Some(cfg.fp.max_token_limit as u64)
+                    }
+                }
+            };
+            let mut successes: u64 = 0;
+            let mut burn_done = false;
+            if w.total_mint_count() != 0 || w.num_tokens_collection() != 0 {
+                res.violations.push(("C01:oe-initial-count".into(), format!("{}: counts are not 0 after creation", vname)));
+            }
+            if w.mintable() != cap {
+                res.violations.push((
+                    "C01:oe-initial-cap".into(),
+                    format!("{}: MintableNumTokens {:?} after creation, documented cap {:?}", vname, w.mintable(), cap),
+                ));
+            }
+            for op in ops {
+                let end_before = w.end_time();
+                let now_before = chain_now(&w);
+                let out = w.run(op);
+                if !out.is_minter_step {
+                    continue;
+                }
+                res.steps += 1;
+                if out.ok {
+                    res.ok_steps += 1;
+                }
+                *res.hist.entry(format!("{}:{}:{}", vname, oe_op_kind(op), if out.ok { "ok" } else { "err" })).or_insert(0) += 1;
+                if let Some(s) = out.coq {
+                    // coverage: mints attempted while the attached whitelist was active (kind of whitelist)
+                    if matches!(op, OeOp::Mint { .. } | OeOp::MintM { .. }) && s.contains("(Some (mkWV true") {
+                        *res.hist.entry(format!("{}:mint-while-{:?}-active:{}", vname, w.wl_kind, if out.ok { "ok" } else { "err" })).or_insert(0) += 1;
+                    }
+                    steps.push(s);
+                }
+                if let Some(e) = &out.err {
+                    if e.starts_with("STATE-CHANGED-ON-FAILURE") {
+                        res.violations.push(("C01:oe-failed-call-changed-state".into(), format!("{}: {:?}: {}", vname, op, e)));
+                    }
+                }
+                if is_oe_mint(op) && out.ok {
+                    successes += 1;
+                    if burn_done {
+                        res.violations.push(("C01:oe-mint-after-burn".into(), format!("{}: {:?} succeeded after burn-remaining", vname, op)));
+                    }
+                    if let Some(e) = end_before {
+                        if now_before >= e {
+                            res.violations.push((
+                                "C01:oe-mint-after-end".into(),
+                                format!("{}: {:?} succeeded at {} with end_time {}", vname, op, now_before, e),
+                            ));
+                        }
+                    }
+                    match &out.minted {
+                        Some((id, owner)) => {
+                            if *id != successes {
+                                res.violations.push((
+                                    "C01:oe-id-not-sequential".into(),
+                                    format!("{}: successful mint number {} was given id {}", vname, successes, id),
+                                ));
+                            }
+                            let want_owner = match op {
+                                OeOp::Mint { who, .. } | OeOp::MintM { who, .. } => who.clone(),
+                                OeOp::MintTo { recipient, .. } => recipient.clone(),
+                                _ => unreachable!(),
+                            };
+                            if owner.as_deref() != Some(want_owner.as_str()) {
+                                res.violations.push(("C01:oe-wrong-owner".into(), format!("{}: token {} owned by {:?}, expected {}", vname, id, owner, want_owner)));
+                            }
+                        }
+                        None => res.violations.push(("C01:oe-mint-without-token".into(), format!("{}: {:?} succeeded but no token id reported", vname, op))),
+                    }
+                }
+                if matches!(op, OeOp::BurnRemaining { .. }) && out.ok {
+                    burn_done = true;
+                }
+                // after every step
+                let total = w.total_mint_count();
+                if total != successes {
+                    res.violations.push((
+                        "C01:oe-total-count".into(),
+                        format!("{}: after {:?}: TotalMintCount {} but {} mints succeeded", vname, op, total, successes),
+                    ));
+                }
+                let held = w.num_tokens_collection();
+                if held != successes {
+                    res.violations.push((
+                        "C01:oe-collection-count".into(),
+                        format!("{}: after {:?}: collection holds {} tokens but {} mints succeeded", vname, op, held, successes),
+                    ));
+                }
+                if let Some(cp) = cap {
+                    if successes > cp {
+                        res.violations.push(("C01:oe-over-cap".into(), format!("{}: {} tokens minted, cap {}", vname, successes, cp)));
+                    }
+                    let want = if burn_done { 0 } else { cp.saturating_sub(successes) };
+                    if w.mintable() != Some(want) {
+                        res.violations.push((
+                            "C01:oe-remaining-count".into(),
+                            format!("{}: after {:?}: MintableNumTokens {:?}, cap {} minus {} minted (burned: {}) is {}", vname, op, w.mintable(), cp, successes, burn_done, want),
+                        ));
+                    }
+                }
+                if res.violations.len() > 5 {
+                    break;
+                }
+            }
+            let mut toks: Vec<u64> = w.all_tokens().iter().map(|t| t.parse().unwrap_or(0)).collect();
+            toks.sort();
+            if toks != (1..=successes).collect::<Vec<u64>>() {
+                res.violations.push(("C01:oe-collection-ids".into(), format!("{}: collection holds {:?}, expected 1..={}", vname, toks, successes)));
+            }
+            res.coq = Some(w.case_coq(&init, &init_bal, &steps));
+        }
+        OeCase::Base { cfg, ops } => {
+            let vname = "base-minter";
+            let mut w = match BaseWorld::new(cfg.clone()) {
+                Ok(w) => w,
+                Err(_) => {
+                    *res.hist.entry(format!("{}:create:err", vname)).or_insert(0) += 1;
+                    return res;
+                }
+            };
+            let init = w.init_state_coq();
+            let init_bal = w.balances_coq();
+            let mut steps = vec![];
+            let mut successes: u64 = 0;
+            for op in ops {
+                let out = w.run(op);
+                if !out.is_minter_step {
+                    continue;
+                }
+                res.steps += 1;
+                if out.ok {
+                    res.ok_steps += 1;
+                }
+                *res.hist.entry(format!("{}:{}:{}", vname, oe_op_kind(op), if out.ok { "ok" } else { "err" })).or_insert(0) += 1;
+                if let Some(s) = out.coq {
+                    steps.push(s);
+                }
+                if let Some(e) = &out.err {
+                    if e.starts_with("STATE-CHANGED-ON-FAILURE") {
+                        res.violations.push(("C01:base-failed-call-changed-state".into(), format!("{}: {:?}: {}", vname, op, e)));
+                    }
+                }
+                if is_oe_mint(op) && out.ok {
+                    successes += 1;
+                    match &out.minted {
+                        Some((id, owner)) => {
+                            if *id != successes {
+                                res.violations.push(("C01:base-id-not-sequential".into(), format!("{}: successful mint number {} was given id {}", vname, successes, id)));
+                            }
+                            if let OeOp::BaseMint { who, .. } = op {
+                                if owner.as_deref() != Some(who.as_str()) {
+                                    res.violations.push(("C01:base-wrong-owner".into(), format!("{}: token {} owned by {:?}, expected {}", vname, id, owner, who)));
+                                }
+                            }
+                        }
+                        None => res.violations.push(("C01:base-mint-without-token".into(), format!("{}: {:?} succeeded but no token id reported", vname, op))),
+                    }
+                }
+                if w.num_tokens_collection() != successes {
+                    res.violations.push((
+                        "C01:base-collection-count".into(),
+                        format!("{}: after {:?}: collection holds {} tokens but {} mints succeeded", vname, op, w.num_tokens_collection(), successes),
+                    ));
+                }
+                if res.violations.len() > 5 {
+                    break;
+                }
+            }
+            let mut toks: Vec<u64> = w.all_tokens().iter().map(|t| t.parse().unwrap_or(0)).collect();
+            toks.sort();
+            if toks != (1..=successes).collect::<Vec<u64>>() {
+                res.violations.push(("C01:base-collection-ids".into(), format!("{}: collection holds {:?}, expected 1..={}", vname, toks, successes)));
+            }
+            res.coq = Some(w.case_coq(&init, &init_bal, &steps));
+        }
+    }
+    res
+}
+
+fn chain_now(w: &OeWorld) -> u64 {
+    crate::chain::now(&w.app)
+}
+
+fn nat(a: u128) -> Vec<(String, u128)> {
+    if a == 0 {
+        vec![]
+    } else {
+        vec![(NATIVE.to_string(), a)]
+    }
+}
+
+/// curated minimal histories for every open-edition variant, and for the base minter
+fn oe_corpus() -> Vec<OeCase> {
+    let mut v = vec![];
+    for variant in 0..3 {
+        let compat = OeWl::compatible(&OE_VARIANTS[variant]);
+        // (a) num_tokens = 3, with end time: sell out by Mint + MintTo, the 4th of each kind fails; purge/burn after the end
+        let mut cfg = OeCfg::basic(variant);
+        cfg.num_tokens = Some(3);
+        v.push(OeCase::Oe {
+            cfg: cfg.clone(),
+            ops: vec![
+                OeOp::Mint { who: BUYERS[0].into(), funds: nat(100) }, // before start
+                OeOp::MintTo { who: CREATOR.into(), recipient: BUYERS[1].into(), funds: nat(40) },
+                OeOp::At { secs: 3000, nanos: 0 },
+                OeOp::Mint { who: BUYERS[0].into(), funds: nat(100) },
+                OeOp::Mint { who: BUYERS[0].into(), funds: nat(99) },
+                OeOp::MintTo { who: STRANGER.into(), recipient: BUYERS[1].into(), funds: nat(40) },
+                OeOp::Mint { who: BUYERS[2].into(), funds: nat(100) },
+                OeOp::Mint { who: BUYERS[2].into(), funds: nat(100) },
+                OeOp::MintTo { who: CREATOR.into(), recipient: BUYERS[1].into(), funds: nat(40) },
+                OeOp::BurnRemaining { who: CREATOR.into() },
+                OeOp::Purge { who: STRANGER.into() },
+                OeOp::At { secs: 5000, nanos: 1 },
+                OeOp::Purge { who: STRANGER.into() },
+                OeOp::BurnRemaining { who: CREATOR.into() },
+            ],
+        });
+        // (b) end-time boundary on Mint, MintTo, UpdateMintPrice, UpdateEndTime, BurnRemaining, Purge
+        let mut cfg = OeCfg::basic(variant);
+        cfg.num_tokens = Some(6);
+        let mut ops = vec![];
+        for (s, n) in [(5000u64, -1i64), (5000, 0), (5000, 1)] {
+            ops.push(OeOp::At { secs: s, nanos: n });
+            ops.push(OeOp::BurnRemaining { who: STRANGER.into() });
+            ops.push(OeOp::Purge { who: STRANGER.into() });
+            ops.push(OeOp::Mint { who: BUYERS[0].into(), funds: nat(100) });
+            ops.push(OeOp::MintTo { who: CREATOR.into(), recipient: BUYERS[1].into(), funds: nat(40) });
+            ops.push(OeOp::UpdateMintPrice { who: CREATOR.into(), price: 90 - (n + 1) as u128 });
+            ops.push(OeOp::UpdateEndTime { who: CREATOR.into(), secs: 6000, nanos: 0 });
+            if n == -1 {
+                // put the end time back
+                ops.push(OeOp::UpdateEndTime { who: CREATOR.into(), secs: 5000, nanos: 0 });
+            }
+        }
+        ops.push(OeOp::BurnRemaining { who: CREATOR.into() });
+        ops.push(OeOp::Mint { who: BUYERS[0].into(), funds: nat(89) });
+        ops.push(OeOp::MintTo { who: CREATOR.into(), recipient: BUYERS[1].into(), funds: nat(40) });
+        ops.push(OeOp::BurnRemaining { who: CREATOR.into() });
+        v.push(OeCase::Oe { cfg, ops });
+        // (c) no num_tokens: the factory-wide cap (12 at creation) applies on plain/merkle and not on wl-flex;
+        //     raising the factory limit afterwards changes nothing; burn-remaining (after the end) panics on wl-flex
+        let mut cfg = OeCfg::basic(variant);
+        cfg.num_tokens = None;
+        let mut ops = vec![OeOp::At { secs: 3000, nanos: 5 }];
+        ops.push(OeOp::SudoParams { min_price: None, mint_fee_bps: None, airdrop_price: None, airdrop_fee_bps: None, offset: None, max_pal: None, max_token_limit: Some(100), dev: None });
+        for k in 0..14u64 {
+            if k % 3 == 0 {
+                ops.push(OeOp::Mint { who: BUYERS[(k % 2) as usize].into(), funds: nat(100) });
+            } else {
+                ops.push(OeOp::MintTo { who: CREATOR.into(), recipient: BUYERS[2].into(), funds: nat(40) });
+            }
+        }
+        ops.push(OeOp::BurnRemaining { who: CREATOR.into() });
+        ops.push(OeOp::At { secs: 5000, nanos: 1 });
+        ops.push(OeOp::BurnRemaining { who: CREATOR.into() });
+        ops.push(OeOp::Purge { who: BUYERS[0].into() });
+        ops.push(OeOp::MintTo { who: CREATOR.into(), recipient: BUYERS[2].into(), funds: nat(40) });
+        v.push(OeCase::Oe { cfg, ops });
+        // (d) num_tokens, no end time: burn with tokens left, then nothing mints; purge needs sold out
+        let mut cfg = OeCfg::basic(variant);
+        cfg.num_tokens = Some(4);
+        cfg.end_in_secs = None;
+        cfg.payment_address = true;
+        v.push(OeCase::Oe {
+            cfg,
+            ops: vec![
+                OeOp::At { secs: 3000, nanos: 0 },
+                OeOp::Mint { who: BUYERS[0].into(), funds: nat(100) },
+                OeOp::Purge { who: BUYERS[0].into() },
+                OeOp::UpdateEndTime { who: CREATOR.into(), secs: 9000, nanos: 0 },
+                OeOp::BurnRemaining { who: STRANGER.into() },
+                OeOp::BurnRemaining { who: CREATOR.into() },
+                OeOp::Mint { who: BUYERS[0].into(), funds: nat(100) },
+                OeOp::MintTo { who: CREATOR.into(), recipient: BUYERS[2].into(), funds: nat(40) },
+                OeOp::Purge { who: BUYERS[0].into() },
+                OeOp::BurnRemaining { who: CREATOR.into() },
+                OeOp::Mint { who: BUYERS[1].into(), funds: nat(100) },
+            ],
+        });
+        // (e) whitelist of each compatible kind: member mints in the window at the whitelist price up to its
+        //     entitlement, non-member fails, then public mints; per-address limit; tiered stage limit
+        for (i, kind) in compat.iter().enumerate() {
+            let mut cfg = OeCfg::basic(variant);
+            cfg.num_tokens = if i == 0 { Some(8) } else { None };
+            cfg.wl = *kind;
+            cfg.wl_windows = if i == 0 { vec![(1000, 2000)] } else { vec![(1000, 1500), (1500, 2000)] };
+            cfg.wl_stage_limit = if i == 0 { None } else { Some(2) };
+            cfg.pal = 2;
+            let k = variant as u8 * 2;
+            cfg.spares = vec![
+                SpareWl { kind: k, start_in: 2100, end_in: 2200, price: 70, ibc: false },     // 0: fine
+                SpareWl { kind: k + 1, start_in: 2100, end_in: 2200, price: 70, ibc: false }, // 1: fine, tiered
+                SpareWl { kind: k, start_in: 2300, end_in: 2400, price: 70, ibc: false },     // 2: fine, later
+                SpareWl { kind: k, start_in: 1900, end_in: 2400, price: 70, ibc: false },     // 3: active at 2000
+                SpareWl { kind: k, start_in: 2100, end_in: 2200, price: 49, ibc: false },     // 4: below the factory minimum
+                SpareWl { kind: k, start_in: 2100, end_in: 2200, price: 70, ibc: true },      // 5: wrong denom
+                SpareWl { kind: (k + 2) % 6, start_in: 2100, end_in: 2200, price: 70, ibc: false }, // 6: another family
+            ];
+            let mut ops = vec![
+                OeOp::Mint { who: BUYERS[0].into(), funds: nat(60) },
+                OeOp::At { secs: 1000, nanos: 0 },
+                OeOp::Mint { who: BUYERS[2].into(), funds: nat(60) },
+                OeOp::Mint { who: BUYERS[0].into(), funds: nat(100) },
+                OeOp::Mint { who: BUYERS[0].into(), funds: nat(60) },
+                OeOp::Mint { who: BUYERS[1].into(), funds: nat(60) },
+                OeOp::Mint { who: BUYERS[0].into(), funds: nat(60) },
+                OeOp::Mint { who: BUYERS[0].into(), funds: nat(60) },
+                OeOp::Mint { who: BUYERS[1].into(), funds: nat(60) },
+                OeOp::At { secs: 1600, nanos: 0 },
+                OeOp::Mint { who: BUYERS[0].into(), funds: nat(60) },
+                OeOp::Mint { who: BUYERS[1].into(), funds: nat(60) },
+                OeOp::Mint { who: BUYERS[1].into(), funds: nat(60) },
+                OeOp::Mint { who: BUYERS[1].into(), funds: nat(60) },
+                OeOp::SetWhitelist { who: CREATOR.into(), spare: 0 },
+                OeOp::At { secs: 2000, nanos: 0 },
+                OeOp::Mint { who: BUYERS[0].into(), funds: nat(60) },
+                OeOp::SetWhitelist { who: CREATOR.into(), spare: 3 },
+                OeOp::SetWhitelist { who: CREATOR.into(), spare: 4 },
+                OeOp::SetWhitelist { who: CREATOR.into(), spare: 5 },
+                OeOp::SetWhitelist { who: CREATOR.into(), spare: 6 },
+                OeOp::SetWhitelist { who: STRANGER.into(), spare: 0 },
+                OeOp::SetWhitelist { who: CREATOR.into(), spare: 0 },
+                OeOp::SetWhitelist { who: CREATOR.into(), spare: 1 },
+                OeOp::At { secs: 2100, nanos: -1 },
+                OeOp::SetWhitelist { who: CREATOR.into(), spare: 2 },
+                OeOp::SetWhitelist { who: CREATOR.into(), spare: 0 },
+                OeOp::At { secs: 2100, nanos: 0 },
+                OeOp::SetWhitelist { who: CREATOR.into(), spare: 2 },
+                OeOp::Mint { who: BUYERS[0].into(), funds: nat(70) },
+                OeOp::Mint { who: BUYERS[2].into(), funds: nat(70) },
+                OeOp::At { secs: 2200, nanos: 0 },
+                OeOp::SetWhitelist { who: CREATOR.into(), spare: 2 },
+                OeOp::At { secs: 3000, nanos: 0 },
+                OeOp::SetWhitelist { who: CREATOR.into(), spare: 2 },
+                OeOp::Mint { who: BUYERS[0].into(), funds: nat(100) },
+                OeOp::Mint { who: BUYERS[0].into(), funds: nat(100) },
+                OeOp::Mint { who: BUYERS[0].into(), funds: nat(100) },
+                OeOp::UpdatePerAddressLimit { who: CREATOR.into(), limit: 3 },
+                OeOp::Mint { who: BUYERS[0].into(), funds: nat(100) },
+                OeOp::UpdatePerAddressLimit { who: CREATOR.into(), limit: 11 },
+                OeOp::UpdatePerAddressLimit { who: CREATOR.into(), limit: 0 },
+                OeOp::UpdatePerAddressLimit { who: BUYERS[0].into(), limit: 4 },
+            ];
+            if OE_VARIANTS[variant].merkle {
+                // adversarial Merkle arguments: someone else's proof, a self-declared allocation, no proof
+                let w0 = vec!["00".repeat(if *kind == OeWl::Merkle { 32 } else { 16 })];
+                ops.insert(3, OeOp::MintM { who: BUYERS[2].into(), funds: nat(60), stage: None, proof: Some(w0), allocation: None });
+                ops.insert(4, OeOp::MintM { who: BUYERS[0].into(), funds: nat(60), stage: None, proof: Some(vec![]), allocation: Some(9) });
+                ops.insert(5, OeOp::MintM { who: BUYERS[0].into(), funds: nat(60), stage: None, proof: None, allocation: None });
+                ops.insert(6, OeOp::MintM { who: BUYERS[0].into(), funds: nat(60), stage: Some(1), proof: Some(vec!["zz".into()]), allocation: None });
+            }
+            v.push(OeCase::Oe { cfg, ops });
+        }
+        // (f) schedule and price updates, trading time, governance changes between mints
+        let mut cfg = OeCfg::basic(variant);
+        cfg.num_tokens = Some(5);
+        v.push(OeCase::Oe {
+            cfg,
+            ops: vec![
+                OeOp::UpdateStartTime { who: CREATOR.into(), secs: 2500, nanos: 0 },
+                OeOp::UpdateStartTime { who: CREATOR.into(), secs: 5001, nanos: 0 },
+                OeOp::UpdateStartTime { who: STRANGER.into(), secs: 2600, nanos: 0 },
+                OeOp::UpdateMintPrice { who: CREATOR.into(), price: 150 },
+                OeOp::UpdateMintPrice { who: CREATOR.into(), price: 49 },
+                OeOp::UpdateStartTradingTime { who: CREATOR.into(), t: Some((2500 + 7 * 24 * 3600, 0)) },
+                OeOp::UpdateStartTradingTime { who: CREATOR.into(), t: Some((2500 + 7 * 24 * 3600, 1)) },
+                OeOp::UpdateStartTradingTime { who: CREATOR.into(), t: None },
+                OeOp::At { secs: 2500, nanos: 0 },
+                OeOp::UpdateStartTime { who: CREATOR.into(), secs: 2600, nanos: 0 },
+                OeOp::Mint { who: BUYERS[0].into(), funds: nat(150) },
+                OeOp::UpdateMintPrice { who: CREATOR.into(), price: 150 },
+                OeOp::UpdateMintPrice { who: CREATOR.into(), price: 149 },
+                OeOp::SudoParams { min_price: Some(120), mint_fee_bps: Some(0), airdrop_price: Some(0), airdrop_fee_bps: Some(10000), offset: Some(10), max_pal: Some(2), max_token_limit: Some(1), dev: Some("XX".into()) },
+                OeOp::Mint { who: BUYERS[1].into(), funds: nat(149) },
+                OeOp::MintTo { who: CREATOR.into(), recipient: BUYERS[1].into(), funds: vec![] },
+                OeOp::UpdateMintPrice { who: CREATOR.into(), price: 119 },
+                OeOp::UpdateMintPrice { who: CREATOR.into(), price: 120 },
+                OeOp::UpdatePerAddressLimit { who: CREATOR.into(), limit: 3 },
+                OeOp::SudoParams { min_price: None, mint_fee_bps: Some(1000), airdrop_price: Some(40), airdrop_fee_bps: Some(5000), offset: None, max_pal: None, max_token_limit: None, dev: None },
+                OeOp::Mint { who: BUYERS[1].into(), funds: nat(120) },
+                OeOp::SudoParams { min_price: None, mint_fee_bps: Some(10001), airdrop_price: None, airdrop_fee_bps: None, offset: None, max_pal: None, max_token_limit: None, dev: Some(DEV.into()) },
+                OeOp::Mint { who: BUYERS[1].into(), funds: nat(120) },
+                OeOp::MintTo { who: CREATOR.into(), recipient: "XX".into(), funds: nat(40) },
+                OeOp::MintTo { who: CREATOR.into(), recipient: BUYERS[2].into(), funds: nat(40) },
+                OeOp::UpdateEndTime { who: CREATOR.into(), secs: 2400, nanos: 0 },
+                OeOp::UpdateEndTime { who: CREATOR.into(), secs: 2500, nanos: 0 },
+                OeOp::Mint { who: BUYERS[2].into(), funds: nat(120) },
+            ],
+        });
+    }
+    // base minter
+    let uri = "ipfs://bafybeigi3bwpvyvsmnbj46ra4hyffcxdeaj6ntfk5jpic5mx27x6ih2qvq/1.json";
+    v.push(OeCase::Base {
+        cfg: BaseCfg::default(),
+        ops: vec![
+            OeOp::BaseMint { who: STRANGER.into(), uri: uri.into(), funds: nat(500) },
+            OeOp::BaseMint { who: CREATOR.into(), uri: uri.into(), funds: nat(500) },
+            OeOp::BaseMint { who: CREATOR.into(), uri: uri.into(), funds: nat(499) },
+            OeOp::BaseMint { who: CREATOR.into(), uri: uri.into(), funds: nat(501) },
+            OeOp::BaseMint { who: CREATOR.into(), uri: "not a url".into(), funds: nat(500) },
+            OeOp::BaseMint { who: CREATOR.into(), uri: uri.into(), funds: vec![] },
+            OeOp::BaseMint { who: CREATOR.into(), uri: uri.into(), funds: vec![(IBC.to_string(), 500)] },
+            OeOp::BaseMint { who: CREATOR.into(), uri: "https://example.com/2".into(), funds: nat(500) },
+            OeOp::BaseSudoParams { min_price: Some(2000), mint_fee_bps: Some(10000) },
+            OeOp::BaseMint { who: CREATOR.into(), uri: uri.into(), funds: nat(500) },
+            OeOp::BaseMint { who: CREATOR.into(), uri: uri.into(), funds: nat(1000) },
+            OeOp::BaseMint { who: CREATOR.into(), uri: uri.into(), funds: nat(2000) },
+            OeOp::BaseUpdateStartTradingTime { who: STRANGER.into(), t: Some((100, 0)) },
+            OeOp::BaseUpdateStartTradingTime { who: CREATOR.into(), t: Some((100, 0)) },
+            OeOp::At { secs: 200, nanos: 0 },
+            OeOp::BaseUpdateStartTradingTime { who: CREATOR.into(), t: Some((200, -1)) },
+            OeOp::BaseUpdateStartTradingTime { who: CREATOR.into(), t: Some((200, 0)) },
+            OeOp::BaseUpdateStartTradingTime { who: CREATOR.into(), t: None },
+            OeOp::BaseSetCreator { who: CREATOR.into(), new: NEWCREATOR.into() },
+            OeOp::BaseMint { who: CREATOR.into(), uri: uri.into(), funds: nat(1000) },
+            OeOp::BaseMint { who: NEWCREATOR.into(), uri: uri.into(), funds: nat(1000) },
+            OeOp::BaseSudoParams { min_price: None, mint_fee_bps: Some(0) },
+            OeOp::BaseMint { who: NEWCREATOR.into(), uri: uri.into(), funds: vec![] },
+            OeOp::BaseMint { who: NEWCREATOR.into(), uri: uri.into(), funds: nat(1) },
+        ],
+    });
+    v
+}
+
+fn gen_oe_case(rng: &mut Rng, variant: usize, thorough: bool) -> OeCase {
+    let v = OE_VARIANTS[variant];
+    let mut cfg = OeCfg::basic(variant);
+    cfg.fp.max_token_limit = *rng.pick(&[6u32, 12, 20]);
+    cfg.num_tokens = match rng.below(4) {
+        0 => None,
+        1 => Some(cfg.fp.max_token_limit),
+        _ => Some(rng.range(1, 7) as u32),
+    };
+    cfg.end_in_secs = if cfg.num_tokens.is_none() || rng.chance(2, 3) { Some(5000) } else { None };
+    cfg.pal = rng.range(1, 4) as u32;
+    cfg.price = *rng.pick(&[50u128, 100, 101, 1000]);
+    cfg.payment_address = rng.chance(1, 3);
+    cfg.fp.mint_fee_bps = *rng.pick(&[0u64, 1, 1000, 3333, 10000]);
+    cfg.fp.airdrop_price = *rng.pick(&[40u128, 40, 7, if cfg.num_tokens.is_some() { 0 } else { 40 }]);
+    cfg.fp.airdrop_fee_bps = *rng.pick(&[0u64, 5000, 10000]);
+    let compat = OeWl::compatible(&v);
+    cfg.wl = match rng.below(3) {
+        0 => OeWl::None,
+        1 => compat[0],
+        _ => compat[1],
+    };
+    if matches!(cfg.wl, OeWl::Tiered | OeWl::TieredFlex | OeWl::TieredMerkle) {
+        cfg.wl_windows = vec![(1000, 1300), (1300, 1700), (1700, 2000)];
+        cfg.wl_stage_limit = if rng.chance(1, 2) { Some(rng.range(1, 3) as u32) } else { None };
+    }
+    cfg.wl_limit = rng.range(1, 3) as u32;
+    cfg.wl_flex_count = rng.range(1, 3) as u32;
+    cfg.wl_price = *rng.pick(&[50u128, 60]);
+    for _ in 0..3 {
+        let st = *rng.pick(&[1200u64, 2100, 2500, 2900]);
+        cfg.spares.push(SpareWl {
+            kind: if rng.chance(3, 4) { variant as u8 * 2 + rng.below(2) as u8 } else { rng.below(6) as u8 },
+            start_in: st,
+            end_in: st + *rng.pick(&[50u64, 300]),
+            price: *rng.pick(&[49u128, 50, 60]),
+            ibc: rng.chance(1, 8),
+        });
+    }
+    let air = cfg.fp.airdrop_price;
+    let mut price = cfg.price;
+    let mut ops = vec![];
+    let buyers = [BUYERS[0], BUYERS[1], BUYERS[2], STRANGER];
+    let has_wl = cfg.wl != OeWl::None;
+    // phase 1: whitelist window (if any), phase 2: public sale, phase 3: around / after the end
+    let len = if thorough { rng.range(40, 90) } else { rng.range(25, 55) } as usize;
+    let mut t: u64 = if has_wl { 900 } else { 2900 };
+    let mut burn_budget = 1;
+    for i in 0..len {
+        if rng.chance(1, 3) {
+            t += *rng.pick(&[1u64, 50, 120, 400]);
+            let nanos = *rng.pick(&[0i64, 0, -1, 1, 7]);
+            // snap to the interesting instants now and then
+            let tt = if rng.chance(1, 4) { *rng.pick(&[1000u64, 1300, 1700, 2000, 3000, 5000]) } else { t };
+            if tt >= t {
+                t = tt;
+            }
+            ops.push(OeOp::At { secs: t, nanos });
+        }
+        let in_wl = has_wl && (1000..2000).contains(&t);
+        let cur = if in_wl { cfg.wl_price } else { price };
+        let pay = |rng: &mut Rng, p: u128| -> Vec<(String, u128)> {
+            match rng.below(20) {
+                0 => nat(p + 1),
+                1 => nat(p.saturating_sub(1)),
+                2 => vec![(IBC.to_string(), p.max(1))],
+                _ => nat(p),
+            }
+        };
+        let who_any = *rng.pick(&[BUYERS[0], BUYERS[1], BUYERS[2], STRANGER, CREATOR]);
+        let admin = if rng.chance(9, 10) { CREATOR } else { who_any };
+        let op = match rng.below(100) {
+            0..=39 => OeOp::Mint { who: (*rng.pick(&buyers)).into(), funds: pay(rng, cur) },
+            40..=64 => OeOp::MintTo { who: admin.into(), recipient: (*rng.pick(&[BUYERS[0], BUYERS[1], STRANGER])).into(), funds: pay(rng, air) },
+            65..=69 => OeOp::Purge { who: who_any.into() },
+            70..=75 => {
+                if burn_budget > 0 && i > len / 2 {
+                    burn_budget -= 1;
+                    if cfg.end_in_secs.is_some() && t <= 5000 {
+                        t = 5000 + rng.range(0, 1);
+                        ops.push(OeOp::At { secs: t, nanos: *rng.pick(&[0i64, 1]) });
+                    }
+                    OeOp::BurnRemaining { who: CREATOR.into() }
+                } else {
+                    OeOp::BurnRemaining { who: who_any.into() }
+                }
+            }
+            76..=80 => {
+                let p = match rng.below(4) {
+                    0 => price + 10,
+                    1 => price,
+                    2 => 49,
+                    _ => price.saturating_sub(rng.range(1, 10) as u128).max(50),
+                };
+                if admin == CREATOR && p >= 50 && (t < 3000 || p < price) {
+                    price = p;
+                }
+                OeOp::UpdateMintPrice { who: admin.into(), price: p }
+            }
+            81..=83 => OeOp::UpdateStartTime { who: admin.into(), secs: *rng.pick(&[2500u64, 3000, 3200, 5000, 5001]), nanos: 0 },
+            84..=87 => OeOp::UpdateEndTime { who: admin.into(), secs: *rng.pick(&[2999u64, 3000, 4000, 5000, 5000, 6000]), nanos: *rng.pick(&[0i64, 0, -1, 1]) },
+            88..=90 => OeOp::UpdateStartTradingTime {
+                who: admin.into(),
+                t: if rng.chance(1, 4) { None } else { Some((*rng.pick(&[t, t + 10, 3000 + 7 * 24 * 3600]), *rng.pick(&[0i64, 1, -1]))) },
+            },
+            91..=93 => OeOp::UpdatePerAddressLimit { who: admin.into(), limit: *rng.pick(&[0u32, 1, 2, 5, 10, 11]) },
+            94..=96 => OeOp::SetWhitelist { who: admin.into(), spare: rng.below(4) as usize },
+            _ => OeOp::SudoParams {
+                min_price: if rng.chance(1, 3) { Some(*rng.pick(&[10u128, 50, 90])) } else { None },
+                mint_fee_bps: if rng.chance(1, 3) { Some(*rng.pick(&[0u64, 500, 10000])) } else { None },
+                airdrop_price: None,
+                airdrop_fee_bps: if rng.chance(1, 3) { Some(*rng.pick(&[0u64, 2500, 10000])) } else { None },
+                offset: if rng.chance(1, 4) { Some(*rng.pick(&[0u64, 100, 7 * 24 * 3600])) } else { None },
+                max_pal: if rng.chance(1, 3) { Some(*rng.pick(&[1u32, 5, 10])) } else { None },
+                max_token_limit: if rng.chance(1, 3) { Some(*rng.pick(&[1u32, 100])) } else { None },
+                dev: None,
+            },
+        };
+        ops.push(op);
+    }
+    // closing probes: everything that could create a token after the end / burn / sell-out
+    if cfg.end_in_secs.is_some() {
+        ops.push(OeOp::At { secs: 6001, nanos: 0 });
+    }
+    ops.push(OeOp::BurnRemaining { who: CREATOR.into() });
+    ops.push(OeOp::Mint { who: STRANGER.into(), funds: nat(price) });
+    ops.push(OeOp::MintTo { who: CREATOR.into(), recipient: BUYERS[0].into(), funds: nat(air) });
+    ops.push(OeOp::Purge { who: STRANGER.into() });
+    OeCase::Oe { cfg, ops }
+}
+
+fn gen_base_case(rng: &mut Rng) -> OeCase {
+    let cfg = BaseCfg {
+        min_price: *rng.pick(&[1000u128, 999, 50_000_000, 1]),
+        mint_fee_bps: *rng.pick(&[10000u64, 5000, 3333, 1]),
+        creation_fee: 5_000,
+        offset_secs: 7 * 24 * 3600,
+    };
+    let fee = |price: u128, bps: u64| price * bps as u128 / 10000;
+    let mut bps = cfg.mint_fee_bps;
+    let mut creator = CREATOR;
+    let uris = ["ipfs://abc/1.json", "https://example.com/x.json", "not a url", ""];
+    let mut ops = vec![];
+    let mut t = 0u64;
+    for _ in 0..rng.range(15, 35) {
+        if rng.chance(1, 4) {
+            t += rng.range(1, 100);
+            ops.push(OeOp::At { secs: t, nanos: *rng.pick(&[0i64, 1, -1]) });
+        }
+        let who = if rng.chance(4, 5) { creator } else { *rng.pick(&[CREATOR, NEWCREATOR, STRANGER, BUYERS[0]]) };
+        let op = match rng.below(20) {
+            0..=11 => {
+                let f = fee(cfg.min_price, bps);
+                let funds = match rng.below(12) {
+                    0 => nat(f + 1),
+                    1 => nat(f.saturating_sub(1)),
+                    2 => vec![(IBC.to_string(), f.max(1))],
+                    3 => vec![],
+                    _ => nat(f),
+                };
+                OeOp::BaseMint { who: who.into(), uri: (*rng.pick(&[uris[0], uris[0], uris[1], uris[1], uris[2], uris[3]])).into(), funds }
+            }
+            12..=14 => OeOp::BaseUpdateStartTradingTime { who: who.into(), t: if rng.chance(1, 4) { None } else { Some((t + rng.range(0, 3), *rng.pick(&[0i64, -1, 1]))) } },
+            15..=17 => {
+                let nb = *rng.pick(&[10000u64, 5000, 0, 2]);
+                bps = nb;
+                OeOp::BaseSudoParams { min_price: if rng.chance(1, 2) { Some(777) } else { None }, mint_fee_bps: Some(nb) }
+            }
+            _ => {
+                let new = if creator == CREATOR { NEWCREATOR } else { CREATOR };
+                let by = if rng.chance(3, 4) { creator } else { STRANGER };
+                if by == creator {
+                    creator = new;
+                }
+                OeOp::BaseSetCreator { who: by.into(), new: new.into() }
+            }
+        };
+        ops.push(op);
+    }
+    OeCase::Base { cfg, ops }
+}
+
+/// runs part 2; returns (#cases, #violations)
+fn run_oe_part(a: &Args, out: &OutDir, rep: &mut Report, replay: Option<OeCase>, nviol_before: usize) -> (usize, usize) {
+    let cases: Vec<OeCase> = match replay {
+        Some(c) => vec![c],
+        None => {
+            let mut rng = Rng::new(a.seed ^ 0x0E0E_0E0E);
+            let mut v = oe_corpus();
+            let per_variant = if a.thorough() { 60 } else { 8 };
+            for variant in 0..3 {
+                for _ in 0..per_variant {
+                    v.push(gen_oe_case(&mut rng, variant, a.thorough()));
+                }
+            }
+            for _ in 0..(if a.thorough() { 40 } else { 6 }) {
+                v.push(gen_base_case(&mut rng));
+            }
+            v
+        }
+    };
+    let mut coq_cases = vec![];
+    let mut nviol = 0usize;
+    let mut samples = 0;
+    for (i, c) in cases.iter().enumerate() {
+        let r = run_oe_case(c);
+        rep.evaluations += r.steps;
+        for (k, v) in &r.hist {
+            *rep.histogram.entry(k.clone()).or_insert(0) += v;
+        }
+        if r.ok_steps > 0 {
+            rep.distinct_nontrivial += r.ok_steps;
+        }
+        for (key, what) in r.violations.iter().take(3) {
+            nviol += 1;
+            if nviol_before + nviol <= 40 {
+                let body = format!(
+                    "{{\n \"property\": \"C01\",\n \"part\": \"oe\",\n \"case\": {},\n \"violation\": {}\n}}\n",
+                    serde_json::to_string(c).unwrap(),
+                    serde_json::to_string(what).unwrap()
+                );
+                let path = out.write_replay(&format!("C01-oe-{}.json", nviol), &body);
+                rep.violations.push(Violation { key: key.clone(), what: what.clone(), replay: path });
+            }
+        }
+        if samples < 2 && i % 11 == 3 {
+            samples += 1;
+            let (name, ops) = match c {
+                OeCase::Oe { cfg, ops } => (OE_VARIANTS[cfg.variant].name, ops),
+                OeCase::Base { ops, .. } => ("base-minter", ops),
+            };
+            rep.samples.push(serde_json::json!({"variant": name,
+                "first_ops": ops.iter().take(8).map(|o| format!("{:?}", o)).collect::<Vec<_>>(), "steps": r.steps, "ok_steps": r.ok_steps}));
+        }
+        if let Some(cq) = r.coq {
+            coq_cases.push(cq);
+        }
+    }
+    rep.rule.push_str(" || part 2: histories of Mint/MintTo/Purge/BurnRemaining/Update*/SetWhitelist by buyers, stranger and admin with factory governance changes on each of the three open-edition minters created through the open-edition factory (with and without num_tokens / end time / whitelist of each compatible kind), and Mint/UpdateStartTradingTime/creator hand-over on the base minter created through the base factory; same counting rules");
+    out.write_cases(
+        "C01oe",
+        "From LP Require Import Num Pay Sg1 Bank MinterVending MinterOpen SaleOeCorr.",
+        "oecase",
+        "sale_oe_check",
+        &coq_cases,
+        6,
+        rep,
+    );
+    (cases.len(), nviol)
 }
